@@ -159,7 +159,7 @@ def _nonrewindable_region():
         M("read", "d2"),
         M("save"),
         M("null", None, "c"),
-        point(("d2",), "m1", 1.0),
+        point(("d2",)),
         M("close_run"),
     )
 
@@ -346,7 +346,7 @@ def single_fault_cases(names, kinds=("raise",), dts=(0.0, 0.3), probe=True):
             obs = run_case(base_case(name))
             cnt = {}
             for _, dev, op, _ in obs.world.ledger:
-                if op in ("set", "trigger", "read", "stage", "unstage", "stop", "kickoff", "complete", "collect", "configure"):
+                if op in ("set", "trigger", "read", "stage", "unstage", "stop", "kickoff", "complete", "collect", "configure", "subscribe", "clear_sub"):
                     cnt[(dev, op)] = cnt.get((dev, op), 0) + 1
             _CALLS[name] = cnt
         for (dev, op), n_calls in sorted(_CALLS[name].items()):
